@@ -510,6 +510,29 @@ func genC02(c *Ctx) {
 			c.run("allocbound " + hexOr(rw))
 		}
 	}
+	// element counts whose byte requirement wraps around in 16 bits (13 bytes per qid, at least 2 per
+	// name): the frame carries about as many bytes as the wrapped product asks for
+	for _, dotu := range []bool{false, true} {
+		for n := 0; n < 65536; n++ {
+			need := (13 * n) % 65536
+			if n < 17 || need >= 48 {
+				continue
+			}
+			for _, bl := range []int{need, need + 1, 10, 23, 30, 47} {
+				rw := append([]byte{0, 0, 0, 0, g.Rwalk, 1, 0, byte(n), byte(n >> 8)}, make([]byte, bl)...)
+				put32(rw, uint32(len(rw)))
+				un(dotu, rw, "count-wraps")
+			}
+		}
+		for n := 32768; n < 32768+24; n++ {
+			need := (2 * n) % 65536
+			for _, bl := range []int{need, need + 2, 0, 7, 40} {
+				tw := append([]byte{0, 0, 0, 0, g.Twalk, 1, 0, 1, 0, 0, 0, 2, 0, 0, 0, byte(n), byte(n >> 8)}, make([]byte, bl)...)
+				put32(tw, uint32(len(tw)))
+				un(dotu, tw, "count-wraps")
+			}
+		}
+	}
 	// stat records: truncations, string-length edits
 	for k := 0; k < c.scale(20, 300) && !c.stop(); k++ {
 		i++
